@@ -39,10 +39,10 @@ def run(chk, prog):
     chk.require(okt, "DIFF-STRUCT", "Diff.tree_diff", "leafwise Diff(primal, tangent) over the primal tree's structure", derived=show(t)[:200], expected="tree_map(lambda p, t: Diff(p, t), tree, tangent_tree)", where=W(D, "tree_diff"))
     r = ev.eval_fn(D.methods["static_check_tree_diff"], D.module, D)
     t = r.ret
-    okc = is_call(t, "all") and is_call(t[2][0], "map") and len(t[2][0][2]) == 2 and is_call(t[2][0][2][1], "tree_leaves") and t[2][0][2][1][2] == (P("v"),)
+    okc = is_call(t, "all") and len(t[2]) == 1 and is_t(t[2][0], "fam") and is_call(t[2][0][1], "tree_leaves") and t[2][0][1][2] == (P("v"),)
     if okc:
-        f = t[2][0][2][0]
-        okc = (is_t(f, "attr") and f[2] == "is_diff") or (ev.closure_of(f) is not None)
+        el_, body_ = ("elem", t[2][0][1]), t[2][0][2]
+        okc = body_ in (("call", ("attr", DIFFG, "is_diff"), (el_,), ()), ("isinst", el_, "Diff"))
     chk.require(okc, "DIFF-STRUCT", "Diff.static_check_tree_diff", "universal test: every leaf is a Diff", derived=show(t)[:200], expected="all(map(Diff.is_diff, tree_leaves(v, is_leaf=Diff.is_diff)))", where=W(D, "static_check_tree_diff"))
     r = ev.eval_fn(D.methods["is_diff"], D.module, D)
     chk.require(r.ret == ("isinst", P("v"), "Diff"), "DIFF-STRUCT", "Diff.is_diff", "isinstance(v, Diff)", derived=show(r.ret), expected="isinstance(v, Diff)", where=W(D, "is_diff"))
